@@ -504,7 +504,8 @@ fn detach_variable_value(value: &Value) -> Value {
 }
 
 fn holds_variable_reference(value: &Value) -> bool {
-  let is_reference = |element: &Value| matches!(element, Value::MutableReference(_));
+  // at any depth: `((x, 1), 2)` holds x as much as `(x, 2)` does
+  let is_reference = |element: &Value| matches!(element, Value::MutableReference(_)) || holds_variable_reference(element);
   match value {
     #[cfg(feature = "tuple")]
     Value::Tuple(tuple) => tuple.borrow().elements.iter().any(|element| is_reference(element)),
@@ -512,6 +513,8 @@ fn holds_variable_reference(value: &Value) -> bool {
     Value::Record(record) => record.borrow().data.values().any(is_reference),
     #[cfg(feature = "map")]
     Value::Map(map) => map.borrow().map.values().any(is_reference),
+    #[cfg(feature = "set")]
+    Value::Set(set) => set.borrow().set.iter().any(is_reference),
     #[cfg(feature = "table")]
     Value::Table(table) => table.borrow().data.values().any(|(_, column)| column.as_vec().iter().any(is_reference)),
     _ => false,
